@@ -191,6 +191,94 @@ fn axles(e: &mut Eng) {
     e.sample(|| "Axle<5>::new(): every terminal empty, writable, connectable; get_terminal(5) must panic".to_string());
 }
 
+/// Every sequence of terminal operations, read back through the poisoned scratch array.
+/// Alphabet over 3 terminals: connect(i,j) for ordered i != j (6), disconnect(i) (3), set_state(i)
+/// (3, a fresh power-of-two position and a fresh time each). After every step each terminal's state
+/// read (the only reader that goes through the scratch array), command read and combined read are
+/// taken. Oracle (nothing more than the scratch clause): no panic, and every state read is
+/// explainable by values that were really written - absent, one written state, or the mean of two
+/// written states, stamped with a written time. The 0x7F poison (3.39e38, time 0x7F7F...) or any
+/// other value no written state explains betrays a slot that was counted but never written.
+fn terminal_ops(e: &mut Eng, depth: usize, budget: Budget) {
+    const NT: usize = 3;
+    let pairs: Vec<(usize, usize)> = (0..NT).flat_map(|i| (0..NT).filter(move |&j| j != i).map(move |j| (i, j))).collect();
+    let nops = pairs.len() + 2 * NT;
+    let pairs = &pairs;
+    par_seqs(e, nops, depth, budget, move |seq, e| {
+        let r = guard(|| -> Result<bool, (usize, String)> {
+            let xs: Vec<Term> = (0..NT).map(|_| Terminal::new()).collect();
+            let mut written: Vec<(i64, f32)> = Vec::new();
+            let mut relinked = false;
+            let mut links = 0usize;
+            for (k, &op) in seq.iter().enumerate() {
+                if op < pairs.len() {
+                    let (i, j) = pairs[op];
+                    connect(&xs[i], &xs[j]);
+                    links += 1;
+                    if links >= 2 {
+                        relinked = true;
+                    }
+                } else if op < pairs.len() + NT {
+                    xs[op - pairs.len()].borrow_mut().disconnect();
+                } else {
+                    let i = op - pairs.len() - NT;
+                    let pos = (1u32 << (written.len() + 1)) as f32;
+                    let t = 1000 + 7 * written.len() as i64;
+                    xs[i].borrow_mut().set(Datum::new(Time(t), State::new_raw(pos, -pos, 0.5 * pos))).map_err(|er| (k, format!("set failed: {:?}", er)))?;
+                    written.push((t, pos));
+                }
+                for (i, x) in xs.iter().enumerate() {
+                    let s = <Terminal<E> as Getter<State, E>>::get(&x.borrow());
+                    let _c = <Terminal<E> as Getter<Command, E>>::get(&x.borrow());
+                    let d = <Terminal<E> as Getter<TerminalData, E>>::get(&x.borrow());
+                    let explain = |time: Time, st: State| -> bool {
+                        let tok = written.iter().any(|w| w.0 == time.0);
+                        let single = written.iter().any(|w| st.position == w.1 && st.velocity == -w.1 && st.acceleration == 0.5 * w.1);
+                        let mean = written.iter().enumerate().any(|(a, wa)| written.iter().skip(a + 1).any(|wb| {
+                            let m = (wa.1 + wb.1) / 2.0;
+                            st.position == m && st.velocity == -m && st.acceleration == 0.5 * m
+                        }));
+                        tok && (single || mean)
+                    };
+                    match s {
+                        Ok(None) => {}
+                        Ok(Some(dat)) => {
+                            if !explain(dat.time, dat.value) {
+                                return Err((k, format!("terminal {} state read returned {:?}, which no written state or mean of two written states explains (written (time, position): {:?})", i, dat, written)));
+                            }
+                        }
+                        Err(er) => return Err((k, format!("terminal {} state read failed: {:?}", i, er))),
+                    }
+                    if let Ok(Some(dat)) = d {
+                        if let Some(st) = dat.value.state {
+                            if !explain(dat.time, st) {
+                                return Err((k, format!("terminal {} combined read returned {:?}, which no written state explains (written: {:?})", i, dat, written)));
+                            }
+                        }
+                    }
+                }
+            }
+            Ok(relinked && !written.is_empty())
+        });
+        let show = |n: usize| -> String {
+            seq[..n].iter().map(|&op| if op < pairs.len() { format!("connect({},{})", pairs[op].0, pairs[op].1) } else if op < pairs.len() + NT { format!("disconnect({})", op - pairs.len()) } else { format!("set_state({})", op - pairs.len() - NT) }).collect::<Vec<_>>().join(",")
+        };
+        e.checks += (seq.len() * NT * 3) as u64;
+        match r {
+            Ok(Ok(nt)) => {
+                if nt {
+                    e.nontrivial += 1;
+                }
+                e.outcome(h64(&seq));
+            }
+            Ok(Err((k, m))) => e.violation("scratch-slot:terminal-ops:unexplained-read", k + 1, || format!("[{}]: {}", show(k + 1), m)),
+            Err(m) => e.violation("scratch-slot:terminal-ops:panic", seq.len(), || format!("[{}] panicked: {}", show(seq.len()), m)),
+        }
+        (seq.len() * (1 + 3 * NT)) as u64
+    });
+    e.sample(|| "connect(0,1),set_state(0),connect(0,2),set_state(1),disconnect(2): every state read explainable by written states".to_string());
+}
+
 pub fn run(_ctx: &Ctx) -> Vec<Eng> {
     let hook = cfg!(rrtk_verif);
     let mut e1 = Eng::new(
@@ -218,10 +306,17 @@ pub fn run(_ctx: &Ctx) -> Vec<Eng> {
         "9 sizes x (1 + 5 out-of-range probes)",
     );
     axles(&mut e3);
+    let depth = if _ctx.thorough { 6 } else { 5 };
+    let mut e4 = Eng::new(
+        "c16-terminal-ops-scratch",
+        "all sequences of exactly `depth` operations over {connect(i,j) for ordered i != j, disconnect(i), set_state(i) with a fresh power-of-two state and time} on 3 terminals, with the state reader's scratch array poisoned; after every step every terminal's state, command and combined read: no panic, and each state read is absent, a written state or the mean of two written states with a written time (the poison or anything else no written value explains = a counted but unwritten slot); non-trivial = at least two connects and one written state",
+        &format!("depth {} => 12^{} sequences (every prefix judged)", depth, depth),
+    );
+    terminal_ops(&mut e4, depth, Budget::secs(if _ctx.thorough { 600 } else { 60 }));
     if !hook {
-        for e in [&mut e1, &mut e3] {
+        for e in [&mut e1, &mut e3, &mut e4] {
             e.caps.push("built without --cfg rrtk_verif: scratch arrays are not poisoned in this run".to_string());
         }
     }
-    vec![e1, e2, e3]
+    vec![e1, e2, e3, e4]
 }
